@@ -12,7 +12,7 @@ from .frontend import AnalysisBroken
 from .lin import LF, Sym, lo_of, hi_of, nonneg, type_range
 from .program import children, strip, walk, locstr, FUNC_KINDS
 
-MAX_DEPTH = 5
+MAX_DEPTH = 9      # frames on the inlining stack, the entry function included; exceeding it is reported, never silent
 MAX_STATES = 400
 BUF_MAX = 2 ** 31 - 1
 
@@ -1047,9 +1047,13 @@ class Interp:
         return out
 
     def want_inline(self, f):
-        if len(self.stack) >= self.max_depth:
-            return False
         if f in self.stack:
+            return False
+        if len(self.stack) >= self.max_depth:
+            # the callee's reads would go unchecked and its result would be unknown: never silently
+            if self.inline is None or self.inline(f):
+                self.unsup(f.node, 'call chain deeper than %d frames, %s not analysed at this site'
+                           % (self.max_depth, f.qualname))
             return False
         if self.inline is not None:
             return self.inline(f)
@@ -1844,24 +1848,61 @@ class Interp:
         if init.get('kind'):
             entry = [o.state for o in self.exec(init, st) if o.status is None]
 
+        trip_fn = self.counted_trip(cond, inc, body)
+        return self.run_loop(n, entry, cond if cond.get('kind') else None,
+                             inc if inc.get('kind') else None, body, trip_fn)
+
+    def ex_WhileStmt(self, n, st):
+        c = children(n)
+        return self.run_loop(n, [st], c[0], None, c[-1], self.counted_trip(c[0], {}, c[-1]))
+
+    def _unit_step(self, x, ivar, st0):
+        """x is `++i`, `i++`, `i += 1` or `i = i + 1` for the variable path ivar"""
+        x = strip(x)
+        k = x.get('kind')
+        c = children(x)
+        if k == 'UnaryOperator' and x.get('opcode') == '++':
+            return self.path_of(c[0], st0) == ivar
+        if k == 'CompoundAssignOperator' and x.get('opcode') == '+=' and self.path_of(c[0], st0) == ivar:
+            r = strip(c[1])
+            return r.get('kind') == 'IntegerLiteral' and int(r['value']) == 1
+        if k == 'BinaryOperator' and x.get('opcode') == '=' and self.path_of(c[0], st0) == ivar:
+            r = strip(c[1], explicit=True)
+            if r.get('kind') == 'BinaryOperator' and r.get('opcode') == '+':
+                rc = children(r)
+                lit = strip(rc[1])
+                return self.path_of(rc[0], st0) == ivar and lit.get('kind') == 'IntegerLiteral' and int(lit['value']) == 1
+        return False
+
+    def counted_trip(self, cond, inc, body):
+        """Trip count `N - i` of a counted loop: the condition is `i < N` / `i != N` (or mirrored),
+        i goes up by exactly one per round - in the increment expression of a `for` whose body leaves
+        i alone, or by the one unconditional top-level step statement of a body that does not write
+        i otherwise and has no `continue` - and N is not changed by the loop."""
         def trip_fn(st0, mod, muts):
-            # for (i = a; i < N; ++i) with i and N not otherwise modified
-            if not cond.get('kind') or not inc.get('kind'):
+            if not cond or not cond.get('kind'):
                 return None
             cn = strip(cond)
-            if cn.get('kind') != 'BinaryOperator' or cn.get('opcode') not in ('<', '!='):
+            if cn.get('kind') != 'BinaryOperator' or cn.get('opcode') not in ('<', '!=', '>'):
                 return None
             cc = children(cn)
+            if cn['opcode'] == '>':
+                cc = [cc[1], cc[0]]
             ivar = self.path_of(cc[0], st0)
             if ivar is None or not isinstance(st0.vars.get(ivar), VInt):
                 return None
             body_mod, body_muts = self.modified_in([body], st0)
-            if ivar in body_mod:
-                return None
-            i2 = strip(inc)
-            if not (i2.get('kind') == 'UnaryOperator' and i2.get('opcode') == '++'
-                    and self.path_of(children(i2)[0], st0) == ivar):
-                return None
+            if inc is not None and inc.get('kind'):
+                if ivar in body_mod or not self._unit_step(inc, ivar, st0):
+                    return None
+            else:
+                stmts = children(body) if body.get('kind') == 'CompoundStmt' else [body]
+                steps = [x for x in stmts if self._unit_step(x, ivar, st0)]
+                others, _ = self.modified_in([x for x in stmts if not any(x is y for y in steps)], st0)
+                if len(steps) != 1 or ivar in others:
+                    return None
+                if any(x.get('kind') == 'ContinueStmt' for x in walk(body)):
+                    return None
             tmp = st0.copy()
             vals = self.ev(cc[1], tmp)
             if len(vals) != 1 or not isinstance(vals[0][0], VInt):
@@ -1876,12 +1917,7 @@ class Interp:
             st0.iv.update({k: v for k, v in tmp.iv.items() if k not in st0.iv})
             st0.sizes.update({k: v for k, v in tmp.sizes.items() if k not in st0.sizes})
             return N - st0.vars[ivar].lf
-        return self.run_loop(n, entry, cond if cond.get('kind') else None,
-                             inc if inc.get('kind') else None, body, trip_fn)
-
-    def ex_WhileStmt(self, n, st):
-        c = children(n)
-        return self.run_loop(n, [st], c[0], None, c[-1])
+        return trip_fn
 
     def ex_DoStmt(self, n, st):
         c = children(n)
